@@ -162,6 +162,12 @@ def _strategy_enum():
     return _SE[0]
 
 
+class _Unprintable:
+    def __repr__(self):
+        raise RuntimeError("this job cannot be rendered")
+    __str__ = __repr__
+
+
 class InjectedAbort(BaseException):
     """a handler failure that is not an Exception subclass (like KeyboardInterrupt or a framework's abort signal)"""
 
@@ -203,6 +209,7 @@ class Harness:
         self.bad_strategy_accepted = []
         self.inits = 0
         self.runaway = False
+        self.listener_tags = []   # tags of events scheduled by simulator listeners ('schedannounced')
         self.workers = []         # every run thread this simulator ever created
         self.max_exec = 32 * (len(prog.get("handlers", {})) + len(prog.get("init", [])) + len(prog.get("initial", [])) + 50)
         h = self
@@ -218,7 +225,7 @@ class Harness:
             def initial(self):
                 h._actions(self, h.prog.get("initial", []), "@initial")
 
-            def h(self, tag):
+            def h(self, tag, job=None):
                 sim = self.simulator
                 t = sim.simulator_time
                 ev = h.events.get(tag)
@@ -238,6 +245,10 @@ class Harness:
                     g.reached.set()
                     g.open.wait(30)
                 h._actions(self, h.prog["handlers"].get(tag, []), tag)
+
+        if prog.get("empty_container_model"):
+            # a model class that is also the container of its entities (it has __len__) and is still empty: falsy, yet a model
+            ProgModel.__len__ = lambda self: 0
 
         class Recorder(EventListener):
             def notify(self, event):
@@ -313,16 +324,16 @@ class Harness:
                 ev = None
                 try:
                     if k == "rel":
-                        ev = sim.schedule_event_rel(time_value(self.prog, a[1]), model, "h", a[2], tag=a[3])
+                        ev = sim.schedule_event_rel(time_value(self.prog, a[1]), model, "h", a[2], **self._kw(a[3]))
                     elif k == "abs":
-                        ev = sim.schedule_event_abs(time_value(self.prog, a[1]), model, "h", a[2], tag=a[3])
+                        ev = sim.schedule_event_abs(time_value(self.prog, a[1]), model, "h", a[2], **self._kw(a[3]))
                     elif k == "now":
-                        ev = sim.schedule_event_now(model, "h", a[1], tag=a[2])
+                        ev = sim.schedule_event_now(model, "h", a[1], **self._kw(a[2]))
                     elif k == "pre":
                         ev = sim.schedule_event(self.pre_events[a[3]])
                     elif k == "ev":
                         # a user-defined event class (public API: schedule_event takes any SimEventInterface)
-                        ev = sim.schedule_event(_labelled_event(direct=sum(map(ord, a[3])) % 2 == 0)(time_value(self.prog, a[1]), model, "h", a[2], tag=a[3]))
+                        ev = sim.schedule_event(_labelled_event(direct=sum(map(ord, a[3])) % 2 == 0)(time_value(self.prog, a[1]), model, "h", a[2], **self._kw(a[3])))
                     else:
                         v = BAD_VALUES[a[1]]
                         if a[1] == "past":
@@ -389,7 +400,19 @@ class Harness:
                 self.events[a[5]] = ev
             elif k == "fanfire":
                 self.fan_count += 1
-                self.fan_producer.fire(self.fan_types[a[1]], self.fan_count)
+                how = a[2] if len(a) > 2 else "fire"
+                et, now = self.fan_types[a[1]], sim.simulator_time
+                # the four ways to publish are documented alike: (timed) content or a ready-made (timed) event
+                if how == "fire":
+                    self.fan_producer.fire(et, self.fan_count)
+                elif how == "fire_timed":
+                    self.fan_producer.fire_timed(now, et, self.fan_count)
+                elif how == "fire_event":
+                    from pydsol.core.pubsub import Event
+                    self.fan_producer.fire_event(Event(et, self.fan_count))
+                else:
+                    from pydsol.core.pubsub import TimedEvent
+                    self.fan_producer.fire_timed_event(TimedEvent(now, et, self.fan_count))
             elif self.on_action:
                 self.on_action(model, a, parent)
 
@@ -414,7 +437,9 @@ class Harness:
         if self.experiment is None or not hasattr(self, "dists"):
             self.dists = {}         # (experiment style keeps its distribution objects for all replications)
         self.stats = {}
-        self.producers = {}
+        # (producers flagged keep_producer outlive the replication, like a model object that is its own event producer)
+        keep = {sp["key"] for sp in self.prog.get("stats", []) if sp.get("keep_producer")}
+        self.producers = {k: v for k, v in self.producers.items() if k in keep}
         if not hasattr(self, "etypes"):
             self.etypes = {}
         h = self
@@ -450,6 +475,9 @@ class Harness:
                                 h.events[tag] = ev
                             elif a[0] == "obs":
                                 h._observe(model, a)
+                            elif a[0] == "resub" and self.n == a[1]:
+                                # this listener subscribes again although it is subscribed (documented: ignored)
+                                h.fan_producer.add_listener(h.fan_types[self.tname], self)
                             elif a[0] == "unsub" and self.n == a[1]:
                                 # this listener unsubscribes itself after its a[1]-th notification
                                 h.timeline.append(("u", self.tname, self.spec["name"]))
@@ -481,6 +509,12 @@ class Harness:
                             ev = sim.schedule_event_rel(time_value(h.prog, d) if h.prog["clock"] != "int" else int(d),
                                                         model, "h", a[2], tag=tag)
                             h.events[tag] = ev
+                        elif a[0] == "schedannounced":
+                            # an event of its own at the announced time (absolute), with priority a[1]; no actions behind it
+                            tag = f"{self.spec['name']}_{self.n}"
+                            h.listener_tags.append(tag)
+                            ev = sim.schedule_event_abs(event.timestamp, model, "h", a[1], tag=tag)
+                            h.events[tag] = ev
                         elif a[0] == "unsub" and self.n == a[1]:
                             # a one-shot listener: unsubscribes itself inside its a[1]-th notification
                             sim.remove_listener(event.event_type, self)
@@ -500,7 +534,9 @@ class Harness:
                 if key not in self.etypes:
                     _etype_counter[0] += 1
                     self.etypes[key] = EventType(f"verif_data_{_etype_counter[0]}")
-                prod = EventProducer()
+                # (a producer that outlives the replication - e.g. the model object itself - keeps the statistics of earlier
+                # replications among its subscribers; the statistic built now subscribes next to them)
+                prod = self.producers[key] if (sp.get("keep_producer") and key in self.producers) else EventProducer()
                 self.producers[key] = prod
                 st = cls(key, "stat " + key, sim, producer=prod, event_type=self.etypes[key])
                 if sp.get("two_types"):
@@ -552,13 +588,15 @@ class Harness:
         self.published.append((key, name, event.content, val, getattr(event, "timestamp", None)))
 
     def _observe(self, model, a, mark=None):
+        from vlib.subtypes import materialize
         sim = model.simulator
         key = a[1]
+        raw, a = a, list(a[:2]) + [materialize(x) for x in a[2:]]      # (the timeline keeps the JSON form of the case)
         st = self.stats[key]
         spec = next(sp for sp in self.prog["stats"] if sp["key"] == key)
         kind = spec["kind"]
         t = sim.simulator_time
-        self.timeline.append(("o", key, num(t), a[2:]) if mark is None else ("o", key, num(t), a[2:], mark))
+        self.timeline.append(("o", key, num(t), raw[2:]) if mark is None else ("o", key, num(t), raw[2:], mark))
         if spec.get("via") == "event":
             payload = a[2] if kind != "wtally" else (a[2], a[3])
             src = key
@@ -699,6 +737,13 @@ class Harness:
         self.pause_at = None
         self.pause_gate.open.set()
         return out, stop_out, parked
+
+    def _kw(self, tag):
+        """keyword arguments of a scheduled handler call; with prog['payload'] == 'unprintable' every event also carries a job
+        object that cannot be rendered (its __repr__ and __str__ raise): what an event carries is the model's business"""
+        if self.prog.get("payload") == "unprintable":
+            return {"tag": tag, "job": _Unprintable()}
+        return {"tag": tag}
 
     def stop_from_time_changed(self, k):
         """arm a subscriber of the simulator's TIME_CHANGED notification that calls stop() inside its k-th notification from
